@@ -29,7 +29,7 @@ def families(tier):
 def enum_family(name, w, seed):
     if name == 'E1':
         import random
-        r = random.Random(seed * 31 + w)
+        r = random.Random(w)        # fixed extra constants: the enumeration does not depend on VERIF_SEED
         return iter(g.E1(w, 'full', (r.getrandbits(w), r.getrandbits(w)) if w > 1 else ()))
     if name == 'T':
         return g.targeted(w)
